@@ -1,5 +1,6 @@
 import SE.Proofs.SafetyFrame
 import SE.Proofs.SafetyLine
+import SE.Proofs.LineBound
 import SE.Proofs.SafetyLoaded
 import SE.Spec.FloatLaws
 import SE.Model.System
@@ -23,8 +24,18 @@ valid UTF-8 or not):
   none of the line's own events addresses is the very same record as before; any later line is therefore
   processed by the same function on a state that differs only by what the first line's events
   legitimately created or updated;
-* the "stall" half is **false** for the current code: the number of events one line produces is not
-  bounded by its length (`events_per_line_unbounded`): `a:1|ms|@r` produces `int(1/r)` events.
+* the "stall" half is **false in general** for the current code: the number of events one line produces is
+  not bounded by its length (`events_per_line_unbounded`): `a:1|ms|@r` produces `int(1/r)` events
+  (open finding `sampling_multiplicity_unbounded`);
+* … and it is **true up to exactly that factor**: a line counts fewer samples than it has bytes
+  (`samples_per_line_bounded`, unconditionally), and every sample yields at most `M` events when `M ≥ 1` bounds
+  the repetition counts `int(1/rate)` its `|@rate` components ask for (`events_per_sample_bounded`), hence
+  `events ≤ length × M` (`events_per_line_bounded_partial`; likewise `sampleErrors` increments
+  `≤ length × (M + 2)`, `errors_per_line_bounded_partial`). Without sampling rates, or with rates whose
+  `int(1/rate)` is at most 1, no line produces more events than it has bytes
+  (`events_per_line_bounded_rate_free`). The sampling multiplicity is therefore the *only* source of
+  unboundedness: the linear-work claim holds for a number type iff `int(1/x)` is bounded over its non-zero
+  values (`events_per_line_bounded_iff`).
 
 The result `none` of `handleEvent(s)` is not an outcome of the program: it marks inputs outside the
 modelled `Sprintf` fragment of the template expansion (see SE/Model/Template.lean).
@@ -234,6 +245,107 @@ theorem events_per_line_unbounded : ¬ @events_per_line_bounded_statement Int to
   · show N ≤ ((N : Int) + 1).toNat
     omega
 
+/-! ### … and the sampling multiplicity is the only source of unboundedness -/
+
+/-- **A line counts fewer samples than it has bytes** — unconditionally (any number type, flags, float parser,
+    validity): the samples are `:`-separated pieces of what follows the non-empty name and its colon. -/
+theorem samples_per_line_bounded (fl : ParserFlags) (pf : Pf V) (valid : Bool) (line : Bytes) :
+    (lineToEvents fl pf valid line).samples ≤ line.length :=
+  samples_le_length fl pf valid line
+
+/-- **A sample yields at most `M` events**, if `M ≥ 1` bounds every repetition count `int(1/rate)` that the
+    float parser can make a `|@rate` component set (`stepComponent`: the parsed rate, replaced by 1 if it is 0,
+    goes through `recipInt`; without a rate component the count is 1). -/
+theorem events_per_sample_bounded (M : Nat) (hM1 : 1 ≤ M) (pf : Pf V)
+    (hM : ∀ b : Bytes, (NumOps.recipInt (if NumOps.isZero (pf b).1 then NumOps.one else (pf b).1)).toNat ≤ M)
+    (fl : ParserFlags) (valid : Bool) (line : Bytes) :
+    (lineToEvents fl pf valid line).events.length ≤ (lineToEvents fl pf valid line).samples * M :=
+  events_le_samples_mul fl pf valid line M hM1 hM
+
+/-- **The work a line causes is linear in its length times the largest repetition count `int(1/rate)` its
+    sampling rates ask for.** If `M ≥ 1` bounds the repetition counts `int(1/rate)` of all rates the float
+    parser `pf` can return, then a line of `n` bytes produces at most `n × M` events — for every number type,
+    flags setting, validity flag and byte string. Without sampling rates (the count is then 1), or with rates
+    `≥ 1/M`, no line amplifies by more than `M`; the only way to get more than `n` events out of `n` bytes is a
+    `|@rate` component with `int(1/rate) > 1`. This is exactly the boundary of the open finding
+    `sampling_multiplicity_unbounded`: `events_per_line_unbounded_of` needs unbounded `int(1/rate)`, and
+    bounded `int(1/rate)` gives this theorem. -/
+theorem events_per_line_bounded_partial (M : Nat) (hM1 : 1 ≤ M) (pf : Pf V)
+    (hM : ∀ b : Bytes, (NumOps.recipInt (if NumOps.isZero (pf b).1 then NumOps.one else (pf b).1)).toNat ≤ M)
+    (fl : ParserFlags) (valid : Bool) (line : Bytes) :
+    (lineToEvents fl pf valid line).events.length ≤ line.length * M :=
+  events_le_length_mul fl pf valid line M hM1 hM
+
+/-- the same in the weaker form `(n + 1) × M` -/
+theorem events_per_line_bounded_partial' (M : Nat) (hM1 : 1 ≤ M) (pf : Pf V)
+    (hM : ∀ b : Bytes, (NumOps.recipInt (if NumOps.isZero (pf b).1 then NumOps.one else (pf b).1)).toNat ≤ M)
+    (fl : ParserFlags) (valid : Bool) (line : Bytes) :
+    (lineToEvents fl pf valid line).events.length ≤ (line.length + 1) * M :=
+  Nat.le_trans (events_per_line_bounded_partial M hM1 pf hM fl valid line)
+    (Nat.mul_le_mul_right M (Nat.le_succ _))
+
+/-- The error counter `sampleErrors` obeys the same kind of bound: a sample adds at most `M` `illegal_event`
+    increments plus one per `|`-component (at most two), a line without samples at most one. -/
+theorem errors_per_line_bounded_partial (M : Nat) (hM1 : 1 ≤ M) (pf : Pf V)
+    (hM : ∀ b : Bytes, (NumOps.recipInt (if NumOps.isZero (pf b).1 then NumOps.one else (pf b).1)).toNat ≤ M)
+    (fl : ParserFlags) (valid : Bool) (line : Bytes) :
+    (lineToEvents fl pf valid line).errs.length ≤ line.length * (M + 2) :=
+  errs_le_length_mul fl pf valid line M hM1 hM
+
+/-- **Rate-free traffic does not amplify.** If no rate the float parser returns has `int(1/rate) > 1` (in
+    particular for rates ≥ 1, where `int(1/rate)` is 0 or 1), a line produces at most as many events as it has
+    bytes. -/
+theorem events_per_line_bounded_rate_free (pf : Pf V)
+    (h1 : ∀ b : Bytes, (NumOps.recipInt (if NumOps.isZero (pf b).1 then NumOps.one else (pf b).1)).toNat ≤ 1)
+    (fl : ParserFlags) (valid : Bool) (line : Bytes) :
+    (lineToEvents fl pf valid line).events.length ≤ line.length := by
+  have := events_per_line_bounded_partial 1 (Nat.le_refl 1) pf h1 fl valid line
+  rwa [Nat.mul_one] at this
+
+/-- Hence: whenever `int(1/x)` is bounded over the non-zero values of the number type, the linear-work claim
+    `events_per_line_bounded_statement` holds (converse of `events_per_line_unbounded_of`). -/
+theorem events_per_line_bounded_of (N : Nat)
+    (hrecip : ∀ sf : V, NumOps.isZero sf = false → (NumOps.recipInt sf).toNat ≤ N) :
+    events_per_line_bounded_statement V := by
+  refine ⟨max (max N 1) (NumOps.recipInt (NumOps.one : V)).toNat, fun fl pf line => ?_⟩
+  rw [Nat.mul_comm]
+  apply events_per_line_bounded_partial _ (by omega) pf _ fl true line
+  intro b
+  by_cases hz : NumOps.isZero (pf b).1 = true
+  · rw [if_pos hz]; omega
+  · rw [if_neg hz]
+    have := hrecip (pf b).1 (by simpa using hz)
+    omega
+
+/-- **The sampling multiplicity is the only source of unboundedness**: for every number type, the number of
+    events per line is linear in the line length iff `int(1/x)` is bounded over the non-zero values. -/
+theorem events_per_line_bounded_iff :
+    events_per_line_bounded_statement V ↔
+      ∃ N : Nat, ∀ sf : V, NumOps.isZero sf = false → (NumOps.recipInt sf).toNat ≤ N := by
+  constructor
+  · intro hb
+    apply Classical.byContradiction
+    intro hne
+    refine events_per_line_unbounded_of (V := V) (fun N => ?_) hb
+    apply Classical.byContradiction
+    intro hno
+    refine hne ⟨N, fun sf hz => ?_⟩
+    apply Classical.byContradiction
+    intro hlt
+    exact hno ⟨sf, hz, by omega⟩
+  · rintro ⟨N, hN⟩
+    exact events_per_line_bounded_of N hN
+
+/-- the toy number type as it stands (`int(1/x)` is integer division `1 / x ∈ {-1, 0, 1}`) does satisfy the
+    linear-work claim: the refutation above needs a number type with unbounded `int(1/x)` -/
+theorem events_per_line_bounded_toy : @events_per_line_bounded_statement Int toyNumOps := by
+  letI := toyNumOps
+  apply events_per_line_bounded_of 1
+  intro sf _
+  show ((1 : Int) / sf).toNat ≤ 1
+  have := Int.ediv_le_self sf (show (0 : Int) ≤ 1 by decide)
+  omega
+
 /-! ### Non-vacuity -/
 
 section examples
@@ -268,6 +380,28 @@ example : (match handleEvents p0 noRx (lineToEvents fl0 pf1 true (strBytes "a:1|
 /-- the amplification, concretely: rate "r" parsed as 50 (toy: `recipInt = id`) gives 50 events -/
 example : (@lineToEvents Int toyRecipId fl0 (fun _ => (50, .ok)) true amplLine).events.length = 50 := by
   with_unfolding_all decide
+
+/-- a stand-in for ParseFloat: every value and every rate is 3 -/
+private def pf3 : Pf Int := fun _ => (3, .ok)
+
+/-- the partial bound, concretely (toy: `recipInt = id`, every rate parsed as 3, so `M = 3` works): the
+    17-byte line `a:1|ms|@r:2|ms|@r` has two samples and 6 = 2 × 3 events — the per-sample bound is attained —
+    and `events_per_line_bounded_partial` bounds them by 17 × 3 -/
+example : (@lineToEvents Int toyRecipId fl0 pf3 true (strBytes "a:1|ms|@r:2|ms|@r")).samples = 2 ∧
+    (@lineToEvents Int toyRecipId fl0 pf3 true (strBytes "a:1|ms|@r:2|ms|@r")).events.length = 6 := by
+  with_unfolding_all decide
+
+example : (@lineToEvents Int toyRecipId fl0 pf3 true (strBytes "a:1|ms|@r:2|ms|@r")).events.length ≤ 17 * 3 :=
+  @events_per_line_bounded_partial Int toyRecipId 3 (by decide) pf3 (fun _ => show (3 : Int).toNat ≤ 3 by decide) fl0 true
+    (strBytes "a:1|ms|@r:2|ms|@r")
+
+/-- with the plain toy number type (`int(1/3) = 0`, and `int(1/1) = 1` without a rate) `M = 1` works for every
+    float parser: the rate-free corollary applies -/
+example (pf : Pf Int) (line : Bytes) : (lineToEvents fl0 pf true line).events.length ≤ line.length :=
+  events_per_line_bounded_rate_free pf (fun b => by
+    show ((1 : Int) / (if ((pf b).1 == 0) = true then 1 else (pf b).1)).toNat ≤ 1
+    have := Int.ediv_le_self (if ((pf b).1 == 0) = true then 1 else (pf b).1) (show (0 : Int) ≤ 1 by decide)
+    omega) fl0 true line
 
 end examples
 
